@@ -296,7 +296,15 @@ fn call_entry(cx: &Ctx, e: usize, input: &[u8]) -> Outcome {
 			let method = if e == 22 { "receive_tx" } else { "finalize_tx" };
 			let slate: Value = serde_json::from_slice(input).unwrap_or_else(|_| Value::String(text()));
 			let req = if e == 22 {
-				json!({"jsonrpc":"2.0","method":method,"id":1,"params":[slate, null, null]})
+				// the third parameter (where to send the reply; a string from outside like the slate): absent, not an
+				// address, a well-formed slatepack address, or text taken from the input
+				let dest = match input.len() % 5 {
+					0 | 1 => Value::Null,
+					2 => json!("not-an-address"),
+					3 => json!(format!("{}", cx.my_addr)),
+					_ => json!(text().chars().take(70).collect::<String>()),
+				};
+				json!({"jsonrpc":"2.0","method":method,"id":1,"params":[slate, null, dest]})
 			} else {
 				json!({"jsonrpc":"2.0","method":method,"id":1,"params":[slate]})
 			};
@@ -435,7 +443,9 @@ impl<'a> Mon<'a> {
 					);
 				}
 				self.rep.max("max:peak-alloc-bytes", peak);
-				if cpu > self.cpu_limit {
+				// "without bound" is judged relative to the size of the input: work that grows in proportion to it (a
+				// cryptographic step per element of a list the caller supplied) is bounded by the request size limit
+				if cpu > self.cpu_limit + 0.0005 * input.len() as f64 {
 					self.rep.violation(
 						&format!("C09|cpu|{}", name),
 						&format!("{} used {:.1}s CPU on a {}-byte input", name, cpu, input.len()),
@@ -516,6 +526,10 @@ fn hostile_strings(rng: &mut Rng) -> Vec<String> {
 		"tgrin1qqqqqqqqqqqqqqqqqqqqqqqqqqqqqqqqqqqqqqqqqqqqqqqqqqqqqqqqqq".into(),
 		"http://.onion".into(),
 		"HTTP://aaaaaaaaaaaaaaaaaaaaaaaaaaaaaaaaaaaaaaaaaaaaaaaaaaaaaaaa.onion".into(),
+		"aaaaaaaaaaaaaaaaaaaaaaaaaaaaaaaaaaaaaaaaaaaaaaaaaa======".into(),
+		"aaaaaaaaaaaaaaaaaaaaaaaaaaaaaaaaaaaaaaaaaaaaaaaaaaaaaaa=".into(),
+		"aaaaaaaaaaaaaaaaaaaaaaaaaaaaaaaaaaaaaaaaaaaaaaaa========".into(),
+		"================================================aaaaaaaa".into(),
 		"ééééééééééééééééééééééééééééééééééééééééééééééééééééééééé".into(),
 		"éaaaaaaaaaaaaaaaaaaaaaaaaaaaaaaaaaaaaaaaaaaaaaaaaaaaaaaaaaaaaaaa".into(),
 	];
@@ -1048,6 +1062,20 @@ pub fn run(a: &Args) {
 		}
 		let (v4, _) = g.slate(&mut rng, &mut st, 1);
 		reqs.push(json!({"jsonrpc":"2.0","method":"receive_tx","id":1,"params":[serde_json::to_value(&v4).unwrap(), null, null]}));
+		reqs.push(json!({"jsonrpc":"2.0","method":"receive_tx","id":1,"params":[serde_json::to_value(&v4).unwrap(), null, "not-an-address"]}));
+		// owner calls whose string parameters are decoded by hand (sent through the encrypted channel, entry 21)
+		let owner_reqs = vec![
+			json!({"jsonrpc":"2.0","method":"create_mwixnet_req","id":1,"params":{"token":null,"commitment":"08e1da9e6dc4d6e808a718b2f110a991dd775d65ce5ae408a4e1f002a4961aa9e7","fee_per_hop":"5000000","lock_output":false,"server_keys":["97444ae673bb92c713c1a2f7b8882ffbfc1c67401a280a775dce1a8651584332"]}}),
+			json!({"jsonrpc":"2.0","method":"create_mwixnet_req","id":1,"params":{"token":null,"commitment":"08e1da9e6dc4d6e808a718b2f110a991dd775d65ce5ae408a4e1f002a4961aa9é7","fee_per_hop":"5000000","lock_output":false,"server_keys":["97444ae673bb92c713c1a2f7b8882ffbfc1c67401a280a775dce1a86515843é2"]}}),
+			json!({"jsonrpc":"2.0","method":"get_stored_tx","id":1,"params":{"token":null,"id":null,"slate_id":"0436430c-2b02-624c-2032-570501212b00"}}),
+			json!({"jsonrpc":"2.0","method":"set_tor_config","id":1,"params":{"tor_config":{"use_tor_listener":true,"socks_proxy_addr":"127.0.0.1:59050","send_config_dir":"."}}}),
+		];
+		for r in owner_reqs.iter() {
+			mon.run(21, r.to_string().as_bytes(), "valid-shape");
+			for (cls, m) in json_mutants(&mut rng, r) {
+				mon.run(21, &m, &cls);
+			}
+		}
 		for r in reqs.iter() {
 			for (cls, m) in json_mutants(&mut rng, r) {
 				mon.run(19, &m, &cls);
